@@ -1,10 +1,10 @@
-"""Expression generators and the y0-expression -> Gallina serialiser (names: A..Z without P,Q -> 0..23;
+"""Expression generators and the y0-expression -> Gallina serialiser (names: A..Z without P,Q -> 0..23; Z10 -> 24, Z2 -> 25;
 V<d> -> 100+d; pi<d> -> 200+d)."""
 from __future__ import annotations
 
 import random
 
-ALPHA = list("ABCDEFGHIJKLMNORSTUVWXYZ")
+ALPHA = list("ABCDEFGHIJKLMNORSTUVWXYZ") + ["Z10", "Z2"]   # the last two: names of different lengths (string order = index order)
 EXC = {"ZeroDivisionError": 1, "ValueError": 2, "TypeError": 3, "KeyError": 4}
 
 
